@@ -50,6 +50,7 @@ typedef struct vf_os_state_s {
   int         reset_zero;         /* MADV_FREE: 0 = keep contents, 1 = drop contents at once */
   int         ignore_hint;        /* 1: the OS does not honour address hints: a hinted (non-fixed) mmap lands at an address of the OS' choosing, 68 KiB past a 32 MiB boundary */
   uintptr_t   hint_bump;
+  int         grant_hugetlb;      /* 1: MAP_HUGETLB requests are granted (backed by ordinary untouched memory); default 0: the modelled OS has no huge pages */
   int         madv_free_einval;   /* 1: MADV_FREE is answered EINVAL (drives the documented fallback) */
   int64_t     clock_ms;           /* virtual monotonic clock */
   uint64_t    rng_seed, rng_ctr;  /* deterministic getrandom */
